@@ -3,6 +3,7 @@
  * DELIVER (pre.h): DL1 no delivery in progress, DL2 it starts at G_delivered.  F1, F2, F3 below.  All targets loop-free: complete proofs over the full domain. */
 #define SF_SETUP \
   Impl impl; SyncReceiveBuffer wbuf, obuf; iora_engine eng; Impl *self = &impl; SessionId W = nondet_u64(); \
+  SyncReceiveBuffer fresh; G_fresh = &fresh; G_made = 0; \
   G_impl = self; impl.engine = &eng; G_sid = W; IORA_TRUE = 1; \
   impl.syncMutex.held = 0; impl.callbackMutex.held = 0; \
   impl.readModes.guard = &impl.syncMutex; impl.receiveBuffers.guard = &impl.syncMutex; impl.pendingConnects.guard = &impl.syncMutex; \
@@ -78,4 +79,33 @@ void h_after_switch(void)
   IORA_CANARY("h_after_switch: returns");
   __CPROVER_assert((impl.onDataCb.set ? G_delivered == G_arrived : G_delivered == a0) && (G_arrived == a0 || !impl.onDataCb.set || G_direct_cbs == 1), "F3d after the switch a new chunk is delivered directly, at stream position G_delivered (DL2): in order behind every flushed byte");
   if (G_direct_cbs == 1) { IORA_CANARY("h_after_switch: direct delivery"); }
+}
+
+/* ---- the mode-dispatch head of setReadMode (step 1: oldMode read ... simple-path branch; status 1 = simple path `return true`, 2 = goes on to the ordered flush, 0 = refused) ---- */
+void h_mode_head(void)
+{
+  SF_SETUP
+  ReadMode mode = nondet_u8(); __CPROVER_assume(mode <= ReadMode_Disabled);
+  __CPROVER_assume(!impl.shuttingDown && DATA_INV(self, &wbuf));
+  ReadMode old = MODE_OF(self); size_t n0 = impl.receiveBuffers.present ? wbuf.data.hi - wbuf.data.lo : 0;
+  int st = setReadMode_step1(self, W, mode);
+  IORA_CANARY("h_mode_head: returns");
+  __CPROVER_assert(!(st == 1 && mode == ReadMode_Async) || G_delivered == G_arrived, "F0 setReadMode(.., Async) returns through the simple path (mode := Async, no flush) ONLY IF the session's sync buffer is empty (G_delivered == G_arrived) - for EVERY old mode (Sync, Disabled after Sync, Async)");
+  __CPROVER_assert(!(mode == ReadMode_Async && n0 > 0) || st == 2, "F0b bytes still buffered and a switch to Async ==> the ordered flush is taken");
+  __CPROVER_assert(st != 2 || (MODE_OF(self) == old && DATA_INV(self, &wbuf)), "F0c handing over to the flush leaves the mode (not Async) and the data invariant untouched");
+  __CPROVER_assert(st != 1 || (MODE_OF(self) == mode && DATA_INV(self, impl.receiveBuffers.wval)), "DI1 the simple path re-establishes the data invariant for the NEW mode (in particular: Async ==> buffer empty)");
+  if (st == 2 && old == ReadMode_Disabled) { IORA_CANARY("h_mode_head: Disabled -> Async with buffered bytes goes through the flush"); }
+  if (st == 1 && mode == ReadMode_Async) { IORA_CANARY("h_mode_head: simple switch to Async"); }
+}
+/* ---- the real onData establishes / preserves the data invariant in every mode ---- */
+void h_data_invariant(void)
+{
+  SF_SETUP
+  __CPROVER_assume(!impl.shuttingDown && DATA_INV(self, &wbuf) && (MODE_OF(self) != ReadMode_Sync || impl.receiveBuffers.present));
+  ReadMode m = MODE_OF(self); size_t size0 = wbuf.data.hi - wbuf.data.lo;
+  io_thread_may_deliver(self);
+  IORA_CANARY("h_data_invariant: returns");
+  __CPROVER_assert(DATA_INV(self, &wbuf), "DI2 onData preserves the data invariant: it appends only in Sync mode, delivers directly (in order, DL2) in Async mode, and in Disabled mode neither appends nor delivers");
+  __CPROVER_assert(m == ReadMode_Sync || !impl.receiveBuffers.present || wbuf.data.hi - wbuf.data.lo == size0, "DI3 the buffer grows only while the mode is Sync");
+  __CPROVER_assert(m == ReadMode_Async || G_direct_cbs == 0, "DI4 a direct delivery happens only in Async mode");
 }
